@@ -224,4 +224,54 @@ def run_stack(case, ctx) -> None:
             ctx.violation("C07:stack:default-rule-taus-differ-from-direct-rule-call",
                           f"layer {i}: ({layer.mhsa_tau},{layer.mlp_tau}) vs ({ref(2*i,2*n)},{ref(2*i+1,2*n)})", layers=n, cls=case["cls"])
             break
+    # ---- the residual scheme as it is actually APPLIED: run the default stack with probe sub-layers -----------------------
+    if n <= 10:
+        import math
+        import torch
+
+        H = 2 * n + 1
+
+        class Probe(torch.nn.Module):
+            """stands in for an attention / MLP block: emits basis vector e_k whatever it is fed, so the weight with which branch k
+            reaches the output can be read off coordinate k"""
+
+            def __init__(self, k):
+                super().__init__()
+                self.k = k
+
+            def forward(self, x):
+                out = torch.zeros_like(x)
+                out[..., self.k] = 1.0
+                return out
+
+        try:
+            probe_stack = M.TransformerStack(layers=n, hidden_size=H, heads=1, is_causal=False)
+            taus = []
+            for i, layer in enumerate(probe_stack):
+                layer.mhsa, layer.mlp = Probe(2 * i + 1), Probe(2 * i + 2)
+                taus += [ref(2 * i, 2 * n), ref(2 * i + 1, 2 * n)]
+            probe_stack = probe_stack.double().eval()
+            x = torch.zeros(1, 1, H, dtype=torch.float64)
+            x[..., 0] = 1.0
+            # expected weights from the rule's taus (checked against exact arithmetic in the 'rule' cases): branch k enters with
+            # tau_k / sqrt(1 + tau_k^2) and is then multiplied by 1 / sqrt(1 + tau_j^2) of every later branch j
+            want = [1.0] + [0.0] * (2 * n)
+            for k, t in enumerate(taus):
+                d = math.sqrt(1 + t * t)
+                want = [w / d for w in want]
+                want[k + 1] = t / d
+            for mode_name, mode in (("grad-mode", torch.enable_grad), ("no_grad", torch.no_grad), ("inference_mode", torch.inference_mode)):
+                with mode():
+                    y = probe_stack(x.clone())
+                got = [float(v) for v in y.reshape(-1)]
+                ctx.count("stack:applied-contributions-compared", len(got))
+                worst = max(abs(g - w) for g, w in zip(got, want))
+                if worst > 1e-12:
+                    k = max(range(len(got)), key=lambda j: abs(got[j] - want[j]))
+                    ctx.violation(f"C07:stack:applied-contributions-differ-from-the-rule:{mode_name}",
+                                  f"{n} layers: branch {k} ({'embedding' if k == 0 else 'attention' if k % 2 else 'MLP'}) reaches the output with weight "
+                                  f"{got[k]!r}, the rule gives {want[k]!r}", layers=n, cls=case["cls"])
+                    break
+        except Exception as e:
+            ctx.violation("C07:stack:probe-run-raises:" + exc_key(e), repr(e), layers=n)
     ctx.nontrivial(f"stack|{case['cls']}|{n}")
